@@ -119,10 +119,8 @@ func (e *Engine) guardsOf(f *ssa.Function, r effects.Root) []ssa.Instruction {
 				continue
 			}
 			if h == e.Guard {
-				for _, l := range fi.Translate(c, effects.Loc{Root: effects.Root{Kind: effects.KElem, Index: 0}}) {
-					if l.Root == r && l.Path == "" {
-						out = append(out, in)
-					}
+				if e.guardCovers(fi, c, r) {
+					out = append(out, in)
 				}
 				continue
 			}
@@ -135,6 +133,47 @@ func (e *Engine) guardsOf(f *ssa.Function, r effects.Root) []ssa.Instruction {
 		}
 	}
 	return out
+}
+
+// guardCovers: does this checkInitialized call definitely inspect position r?
+// Either the whole parameter slice is passed (points...), covering every
+// element, or a varargs array whose slots each hold exactly one known pointer.
+func (e *Engine) guardCovers(fi *effects.FuncInfo, c *ssa.Call, r effects.Root) bool {
+	arg := c.Common().Args[0]
+	if p, ok := arg.(*ssa.Parameter); ok {
+		for i, q := range fi.Fn.Params {
+			if q == p {
+				return r == effects.Root{Kind: effects.KElem, Index: i}
+			}
+		}
+		return false
+	}
+	sl, ok := arg.(*ssa.Slice)
+	if !ok || sl.Low != nil || sl.High != nil {
+		return false
+	}
+	al, ok := sl.X.(*ssa.Alloc)
+	if !ok || al.Comment != "varargs" {
+		return false
+	}
+	// every store into the varargs array stores one definite pointer
+	for _, ref := range *al.Referrers() {
+		ia, ok := ref.(*ssa.IndexAddr)
+		if !ok {
+			continue
+		}
+		for _, ref2 := range *ia.Referrers() {
+			st, ok := ref2.(*ssa.Store)
+			if !ok || st.Addr != ssa.Value(ia) {
+				continue
+			}
+			pvs := fi.PtsOf(st.Val)
+			if len(pvs) == 1 && pvs[0].Loc.Root == r && pvs[0].Loc.Path == "" && r.Kind == effects.KParam {
+				return true
+			}
+		}
+	}
+	return false
 }
 
 // Checks: f applies the guard to r on every path to a normal return.
@@ -316,6 +355,21 @@ func (e *Engine) GInit() []report.Obligation {
 					o.Exception = "Set is exempt by the property statement"
 					out = append(out, o)
 					continue
+				}
+				if !e.Checks(f, r) {
+					o.OK = false
+					o.Detail = "some path reaches a normal return without checkInitialized having been applied to " + name + ": a zero-value Point is accepted as input on that path"
+					for _, rs := range fi.Sum.Returns {
+						d := false
+						for _, g := range e.guardsOf(f, r) {
+							if rs.Instr != nil && dominates(g, rs.Instr) {
+								d = true
+							}
+						}
+						if !d && rs.Instr != nil {
+							o.Pos = e.P.Rel(rs.Instr.Pos())
+						}
+					}
 				}
 				if ug := e.Unguarded(f, r); len(ug) > 0 {
 					o.OK = false
@@ -552,7 +606,7 @@ func induction(v ssa.Value) (int64, int64, bool) {
 
 func (e *Engine) GLen() []report.Obligation {
 	var out []report.Obligation
-	for _, f := range e.P.Funcs {
+	for _, f := range e.P.APIRoots() {
 		var si, pi = -1, -1
 		for i, p := range f.Params {
 			if s, ok := p.Type().Underlying().(*types.Slice); ok {
